@@ -61,7 +61,7 @@ def emitter_frame(chk):
     return deps
 
 
-def header_text(name, guard=None, define=True, before="", after="", double=False):
+def header_text(name, guard=None, define=True, before="", after="", double=False, endif_tail=""):
     g = guard if guard is not None else name.upper().replace(".", "_")
     lines = P.header(name).rstrip("\n").split("\n") + [""]
     if before:
@@ -69,7 +69,7 @@ def header_text(name, guard=None, define=True, before="", after="", double=False
     lines += [f"#ifndef {g}"]
     if define:
         lines += [f"# define {g}"]
-    lines += ["", "int\tft_fa(int c, char **d);", "", "#endif"]
+    lines += ["", "int\tft_fa(int c, char **d);", "", "#endif" + endif_tail]
     if double:
         lines += ["", f"#ifndef {g}", f"# define {g}", "#endif"]
     if after:
@@ -98,6 +98,10 @@ def bounded(seed, thorough):
         cases.append(("declaration_before", nm, header_text(nm, before="int\tft_early(void);"), {"HEADER_PROT_ALL"}))
         cases.append(("declaration_after", nm, header_text(nm, after="int\tft_late(void);"), {"HEADER_PROT_ALL_AF"}))
         cases.append(("same_text_as_c_file", nm[:-2] + ".c", header_text(nm, guard="FOO_BAR_H"), set()))
+        # comments after the closing #endif are not declarations
+        cases.append(("correct_block_comment_after_endif", nm, header_text(nm, endif_tail=f" /* {g} */"), set()))
+        cases.append(("correct_line_comment_after_endif", nm, header_text(nm, endif_tail=f" // {g}"), set()))
+        cases.append(("correct_comment_lines_after_endif", nm, header_text(nm, after="/*\n** end of file\n*/"), set()))
     t0 = time.time()
     res = native_batch([{"op": "pipeline", "text": t, "name": n} for _, n, t, _ in cases])
     fails = []
@@ -155,11 +159,25 @@ def run(tier, seed, replay):
                what="a header with declarations but no guard gets no protection diagnostic: the only function that "
                     "emits HEADER_PROT_* runs after preprocessor statements only")
 
+    # the cursor helpers the check relies on (skip_ws with nl / comment flags, eol), against their bodies
+    from ..specs import context as CX
+    E3 = chk.engine()
+    for c in CX.contracts():
+        if c.key.endswith("skip_ws") or c.key.endswith("eol"):
+            chk.run_contract(E3, c)
+    # two headers of the same name in one run of the real command line: the second one's guard is
+    # judged on its own text (nothing the first one defined counts)
+    from .common import run_native
+    t0 = time.time()
+    nat = run_native("cli_harness", {"op": "two_headers"}, timeout=300)
+    chk.finite("cli.guard_of_each_header_is_judged_on_its_own", not nat["violations"], nat["cases"],
+               {"violations": nat["violations"][:2]}, replay=None,
+               what=f"include-guard validation depends on the other files of the run: {nat['violations'][:1]}", time_s=time.time() - t0)
     cases, fails, dt = search()
     chk.add_bounded("Lexer + Registry.run (whole pipeline)",
                     "correct guard: no HEADER_PROT_*; other symbol / lower case / #define missing / doubled / "
                     "declaration before / declaration after: the corresponding diagnostic; .c name: none",
-                    "%d header names over [a-z0-9_.] x 8 guard variants" % (len(cases) // 8), len(cases), fails,
+                    "%d header names over [a-z0-9_.] x 11 guard variants (incl. comments after #endif)" % (len(cases) // 11), len(cases), fails,
                     nontrivial=len({(k, n) for k, n, _, _ in cases}),
                     samples=[{"kind": k, "name": n} for k, n, _, _ in cases[:3]], time_s=dt)
     explained = any(i.status == "failed" for i in chk.items if "unguarded" not in i.name)
